@@ -47,6 +47,12 @@ def cases(tier, seed):
             single = len(idx) == 1 and rng.random() < 0.5
             qs.append({"s": s, "colidx": [i + 1 for i in idx], "colnames": [allcols[i] for i in idx], "single": single,
                        "explicit": rng.random() < 0.3})
+        if which == "bins":
+            # always: the chromosome column ALONE (given as a string and as a one-element list) on ranges that do not start at 0
+            for a, b in ((2, None), (1, 3), (None, -1)):
+                for single in (True, False):
+                    qs.append({"s": {"kind": "slice", "a": [a] if a is not None else [], "b": [b] if b is not None else []},
+                               "colidx": [1], "colnames": ["chrom"], "single": single, "explicit": False})
         joined = which == "pixels" and F_h("m2@48", 2) == 1          # the same selections through pixels(join=True)
         if joined:
             for q in qs:
